@@ -50,6 +50,20 @@ Definition c16_job (m r : Z) (dep : tstored) (sel : option (list nat)) (md_t : t
 
 Definition opt_of_res {A} (r : res A) : option A := match r with Ok a => Some a | Err _ => None end.
 
+(* views used by the kernel cross-check of the extraction (vm_compute inside Coq vs. the OCaml driver) *)
+Definition c16_shapes (r : res (list chunk)) : option (list (Z * Z * list Z)) :=
+  match r with
+  | Ok cs => Some (map (fun c => (cstart c, cend c, map rid (crows c))) cs)
+  | Err _ => None
+  end.
+Definition c16_copy_shapes (s : tstored) (dst_state : Z) (comp : option Z) (rechunk : bool) (rechunk_to : Z) :=
+  let '(tr, _) := c16_copy s dst_state comp rechunk rechunk_to in
+  match lookup P_DST (last tr (c16_fs0 s dst_state)) with
+  | Some s' => c16_shapes (c16_load s')
+  | None => None
+  end.
+Definition c16_onload_shapes (s : tstored) (sel : option (list nat)) (tgt : Z) := c16_shapes (c16_onload s sel tgt).
+
 (* all per-chunk jobs, the merge of their results, and the directly made data *)
 Definition c16_perchunk (m r : Z) (dep : tstored) (groups : list (list nat)) (md_t : tstored)
            (rechunk_save merge_rechunk : bool) (rechunk_to : Z)
